@@ -56,7 +56,7 @@ def clauses(case, d, prev=None):
     bad = []
     if "done_raw" in d and not isinstance(d["done_raw"], bool):
         bad.append("doist-done-is-not-a-bool-after-the-run")
-    _, tock, start, limit, pool, specs = case
+    _, tock, start, limit, pool, specs = case[:6]
     tock = float(tock)
     start = float(start)
     tr = d["trace"]
@@ -133,7 +133,7 @@ class C05(S.SchedCheck):
                  "differential run against hio.base.doing; stop cycle and flags recomputed independently with Python float arithmetic")
     level_text = ('Lean theorems for every program/tock/start/limit/fuel over an abstract time type (only + and a decidable <=; tyme = start + tock + ... + tock literally as the floats do): tyme_is_iterated_tick (unconditional), no_limit_done, done_right_after_emptying_cycle, mid_cycles_deque_nonempty, limit_stop_not_past, limit_stop_reached, done_iff_empty_at_stop (emptiness tested before the limit), enter_sets_done_false, forced_close_sets_no_flag (+ _all, final_exit, remove, abort variants), return_flag_true_only_if_truthy, flag_true_is_justified (every flag-true event directly follows the exit/exitEnd of that doer, or follows `recur` of that id plus exactly the events of one exception-free cycle of a scheduler with that id that left its deque empty = the own self.done = self.recur() assignment of a DoDoer), flag_true_is_justified_weak. Several runs on one Doist object (model HioModel/Sched/Runs.lean: a later do()/ado() inherits the tyme and the sticky limit and nothing else): later_run_as_fresh, run_depends_only_on_carried_tyme; a quarter of the cases are sequences of 2-4 do/ado calls on one Doist with fresh or reused doers, oracle applied per run. F07 (limit=0 treated as no limit) was repaired on fix/sched. Known finding C05-K1: an always-DoDoer keeps done=True from its own recur() when force-closed (the model predicts it; flag_true_is_justified has the matching second disjunct).')
     level_note = ('Trusted: as C01; float + and <= of CPython and Lean agree (exercised bit-for-bit by the correspondence, non-dyadic tocks and limits included); abs() of the limit is applied by the harness before the model sees it.')
-    profiles = ("time", "plain", "mixed", "faults", "ops")
+    profiles = ("time", "plain", "mixed", "faults", "ops", "lastop")
     rule = ("3/4 single runs, 1/4 sequences of 2-4 do()/ado() calls on ONE Doist (tyme/limit given or kept, doers fresh or reused, runs that complete / hit the limit / raise / are interrupted); single runs: as C01 plus op/fault-free timing programs; limits {None, 0, tock/2, tock, 2.5 tock, 3 tock, 0.3, 1.0, -2 tock, 7 tock, 12 tock}, starts {0,1,2.5,0.3}, tocks {1/32,0.1,0.25,0.5,1}.  "
             "non-trivial = >=12 events and (limit given or a doer returned a value); distinct by request line")
 
